@@ -18,6 +18,7 @@ type Runner struct {
 	Rec     *Recorder
 	MaxTime time.Duration
 	NoReset bool // keep counting backend calls across CommitStart (sweeps count from Begin)
+	OpGate  bool // every API operation is a scheduling point too (concurrent histories)
 	obsN    int
 }
 
@@ -94,6 +95,9 @@ func errs(err error) string {
 
 // DoOp performs one operation and records it. Returns false when the transaction died.
 func (r *Runner) DoOp(ctx context.Context, lt *LiveTxn, p *Program, op OpSpec) bool {
+	if r.OpGate {
+		r.Env.Hub.Gate(lt.Label, "API.Op")
+	}
 	b := lt.Stores[op.Store]
 	name := p.Stores[op.Store].Name
 	e := Ev{Ev: "Op", T: lt.Label, S: name, Op: op.Op, K: op.K, V: vname(op.V)}
@@ -169,11 +173,13 @@ func (r *Runner) End(ctx context.Context, lt *LiveTxn) bool {
 	if lt.Dead {
 		// the wrapper already rolled the transaction back (the failing call's event says so)
 		lt.T.Rollback(ctx)
+		r.Env.Hub.Emit(decor.Event{Txn: lt.Label, Ev: "End", Res: map[string]any{"ok": false}})
 		return false
 	}
 	if lt.Spec.End == "rollback" {
 		err := lt.T.Rollback(ctx)
 		r.Rec.Add(Ev{Ev: "Rollback", T: lt.Label, Ok: err == nil, Note: errs(err)})
+		r.Env.Hub.Emit(decor.Event{Txn: lt.Label, Ev: "End", Res: map[string]any{"ok": false}})
 		return false
 	}
 	r.Rec.Add(Ev{Ev: "CommitStart", T: lt.Label})
@@ -182,6 +188,7 @@ func (r *Runner) End(ctx context.Context, lt *LiveTxn) bool {
 	}
 	err := lt.T.Commit(ctx)
 	r.Rec.Add(Ev{Ev: "CommitEnd", T: lt.Label, Ok: err == nil, Note: errs(err), N: r.Env.Hub.Count(lt.Label)})
+	r.Env.Hub.Emit(decor.Event{Txn: lt.Label, Ev: "End", Res: map[string]any{"ok": err == nil}})
 	return err == nil
 }
 
